@@ -18,6 +18,9 @@ pub enum Error {
     /// The required attribute was not found in the RPSL object.
     #[error("no {0} attribute found in RPSL object {1}")]
     FindAttribute(AttributeType, RpslObject),
+    /// The expression uses a construct that cannot be resolved against an IRR database.
+    #[error("'{0}' cannot be evaluated: it has no meaning outside of a peering context")]
+    Unsupported(&'static str),
     /// An unexpected RPSL object type was received.
     #[error("unexpected RPSL object {0}")]
     RpslObjectClass(RpslObject),
